@@ -1624,6 +1624,37 @@ func (c *c02ctx) r6Loops() {
 				r.OK("C02.R6", key, firstPos(h), "counting loop: induction variable compared with a bound fixed before the loop and stepped by a constant")
 				continue
 			}
+			// range over a map or a string: one iteration per entry. For a map the order is random, so the body must
+			// not have an order-dependent effect (an insertion under a transformed key, where two entries can collide
+			// and the last one wins, or an append): the result of decoding has to be a function of the input
+			if nx, isMap := rangeNextOf(h); nx != nil {
+				if !isMap {
+					r.OK("C02.R6", key, firstPos(h), "range over a string: one iteration per rune")
+					continue
+				}
+				orderDep := token.NoPos
+				for b := range body {
+					for _, in := range b.Instrs {
+						switch x := in.(type) {
+						case *ssa.MapUpdate:
+							k := x.Key
+							if ex, ok := k.(*ssa.Extract); !ok || ex.Tuple != ssa.Value(nx) || ex.Index != 1 {
+								orderDep = x.Pos()
+							}
+						case *ssa.Call:
+							if b, ok := x.Call.Value.(*ssa.Builtin); ok && b.Name() == "append" {
+								orderDep = x.Pos()
+							}
+						}
+					}
+				}
+				if orderDep.IsValid() {
+					r.Bad("C02.R6", key, orderDep, "%s ranges over a map and has an order-dependent effect in the loop (an insertion under a transformed key, or an append): Go randomises map iteration, so entries that collide after the transformation (or the order of the appended elements) make two decodes of the same bytes give different results", fnKey(fn))
+				} else {
+					r.OK("C02.R6", key, firstPos(h), "range over a map: one iteration per entry, no order-dependent effect in the body")
+				}
+				continue
+			}
 			// can the header reach itself inside the body avoiding blocks that contain a consuming call?
 			blocked := map[*ssa.BasicBlock]bool{}
 			for b := range body {
@@ -2265,4 +2296,17 @@ func selectedByPredicate(ta *ssa.TypeAssert) (string, bool) {
 		}
 	}
 	return "the element was selected by slices.IndexFunc with a predicate that answers true only when its own comma-ok assertion of the same field to " + typeName(ta.AssertedType) + " succeeded, and the index is known non-negative here", true
+}
+
+// rangeNextOf: the loop header h is driven by a range iterator over a map or string (ssa.Next in the header).
+func rangeNextOf(h *ssa.BasicBlock) (*ssa.Next, bool) {
+	for _, in := range h.Instrs {
+		if nx, ok := in.(*ssa.Next); ok {
+			if rg, ok := nx.Iter.(*ssa.Range); ok {
+				_, isMap := rg.X.Type().Underlying().(*types.Map)
+				return nx, isMap
+			}
+		}
+	}
+	return nil, false
 }
